@@ -7,6 +7,8 @@ Binding: C01's scenarios (plus periodic domains, which create ghost-tagged
          class implementing get_spatially_ordered_indices; the index list, the
          arrays before/after spatially_order_particles and the neighbour
          lists after the next update are decided by TLC (TraceNNPS.tla).
+         Every other scenario goes through Solver.reorder_particles (all
+         arrays, followed by the update the solver itself performs).
 """
 import json
 import os
@@ -50,6 +52,13 @@ def run():
         else:
             scens = small[:1500] + list(nc.random_scenarios(
                 rng, 1500, domain=True, nmax=40))
+    if not chk.args.replay:
+        # every other scenario is re-ordered by the real
+        # Solver.reorder_particles (all arrays, then the solver's own update)
+        # and queried without any further update
+        for k, s in enumerate(scens):
+            s['via_solver'] = bool(k % 2)
+    nvia = sum(1 for s in scens if s.get('via_solver'))
     by_id = {s['id']: s for s in scens}
     outs = nc.run_driver(chk, scens, cfgs, reorder=True, tag='c17')
     files, n = nc.batches(chk, outs, by_id, cfgs, per=200, tag='c17')
@@ -116,6 +125,7 @@ def run():
         traces_validated_against_impl=len(verdicts),
         scenarios=len(scens), configurations=len(cfgs), per_class=per_cls,
         records_with_ghost_particles=nghost,
+        scenarios_via_solver_reorder_particles=nvia,
         evaluations=len(verdicts), distinct_nontrivial=len(nontrivial),
         rule='a case is one scenario replayed into one re-ordering-capable '
              'NNPS configuration: indices, arrays before/after and neighbour '
